@@ -33,7 +33,8 @@ RULE = ("roundtrip: random univariate equal-length panels (1-6 instances, length
         "(or a rejection for ts_lines); distinct = distinct canonical JSON case")
 TRUSTED = [
     "translator/tsformat.py (Python ast -> site facts: writer header items, parser startswith chain, "
-    "separators, split order; fail-closed; the modelled fragments of data_io.py / base.py are pinned "
+    "separators, split order, decorators / global statements of the loader functions; fail-closed; "
+    "the modelled fragments of data_io.py / base.py are pinned "
     "by the sha256 of their ast.unparse text) - validated on every run through Bridge.v",
     "modelled Python str semantics on ASCII bytes: strip / lower / startswith / split(one char) / "
     "`in` / replace('?', 'NaN'); float() acceptance as a decimal-literal grammar (no '_' grouping, no "
@@ -336,7 +337,10 @@ def _rand_history(rng):
         if k < nload - 1 and rng.random() < 0.5:
             tgt = k if rng.random() < 0.7 else rng.randrange(k + 1)
             tsplit = [o for o in ops if o["op"] == "load"][tgt]["split"]
-            hows = [h for h in MUTATIONS if not (h == "drop_first" and tsplit is None)]
+            # (split=None frames carry duplicate row labels: no drop by label there; a second
+            # X["extra"] = ... would overwrite, not add)
+            hows = [h for h in MUTATIONS if not (h == "drop_first" and tsplit is None)
+                    and not (h == "add_column" and _mu(tgt, h) in ops)]
             ops.append(_mu(tgt, rng.choice(hows)))
     return ops
 
@@ -346,8 +350,12 @@ def _gen_histories(rng, tier):
     fixed = _fixed_histories()
     for fn in LOADERS:
         slow = fn in SLOW_LOADERS
-        nfix, nrand = (1, 1) if slow else ((2, 3) if tier == "quick" else (len(fixed) - 1, 12))
-        hs = [fixed[0]] + rng.sample(fixed[1:], nfix) + [_rand_history(rng) for _ in range(nrand)]
+        nfix, nrand = (0, 0) if slow else ((1, 3) if tier == "quick" else (len(fixed) - 2, 12))
+        # always: frame form then (X, y) form of one split; an in-place edit of a nested series
+        # followed by calls that read the same file again
+        must = [fixed[0], fixed[3]]
+        rest = [h for h in fixed if h not in must]
+        hs = must + rng.sample(rest, nfix) + [_rand_history(rng) for _ in range(nrand)]
         for ops in hs:
             out.append({"kind": "history", "loader": fn, "ops": ops})
     return out
